@@ -80,6 +80,13 @@ def collect(prop, tier, seed):
         w = dict(w)
         w["property"] = prop
         w["features"] = features(c, w)
+        # where the witness sits: the last block of a text that ends with a label (the program runs off its end there)
+        lines = [l for l in c["teal"].split("\n") if l]
+        if lines and lines[-1].endswith(":"):
+            w["features"].append("ends:label")
+        ids = [b["id"] for b in c["obs"].get("bbs", [])]
+        if ids and w.get("b") == max(ids):
+            w["features"].append("at:last-block")
         w["size"] = len(c["teal"])
         w["pipe"] = "exact"
         mine.append(w)
